@@ -12,6 +12,7 @@ immutable field IpfsDHT.bucketSize
 immutable field IpfsDHT.alpha
 immutable field IpfsDHT.beta
 immutable field IpfsDHT.self
+immutable field IpfsDHT.valueStore
 immutable field query.dht
 immutable field query.key
 
@@ -291,6 +292,7 @@ funclit 0 in (dht *IpfsDHT) searchValueQuorum(ctx context.Context, key string, v
   ensures [stop-only-past-quorum] imp(result && tagged("closed:stopCh"), nvals > 0 && numResponses > nvals)
 
 func (dht *IpfsDHT) getValues(ctx context.Context, key string, stopQuery chan struct{}) (<-chan recvdVal, <-chan *lookupWithFollowupResult)
+  requires dht.valueStore != nil
   props C04 C03
   ghostvar $ok bool = false
   ghostvar $v []byte = nil
@@ -406,7 +408,7 @@ func (dht *IpfsDHT) FindPeer(ctx context.Context, id peer.ID) (pi peer.AddrInfo,
 # on it to stop before the network phase when the store refused the record.
 func (dht *IpfsDHT) putLocal(ctx context.Context, key string, rec *recpb.Record) error
   props C06 C05
-  requires rec != nil && str(rec.Key) == key
+  requires rec != nil && str(rec.Key) == key && dht.valueStore != nil
   ghostvar $verdict error = nil
   ghostvar $asked bool = false
   modifies *
@@ -416,6 +418,7 @@ func (dht *IpfsDHT) putLocal(ctx context.Context, key string, rec *recpb.Record)
 
 func (dht *IpfsDHT) getLocal(ctx context.Context, key string) (*recpb.Record, error)
   props C06 C05
+  requires dht.valueStore != nil
   ghostvar $rec *recpb.Record = nil
   ghostvar $gerr error = nil
   modifies *
